@@ -3010,6 +3010,10 @@ func (s *ImmuStore) ReplicateTx(ctx context.Context, exportedTx []byte, skipInte
 			i += mdLen
 		}
 
+		if len(exportedTx) < i+lszSize {
+			return nil, ErrIllegalArguments
+		}
+
 		// value
 		vLen := int(binary.BigEndian.Uint32(exportedTx[i:]))
 		i += lszSize
@@ -3032,9 +3036,12 @@ func (s *ImmuStore) ReplicateTx(ctx context.Context, exportedTx []byte, skipInte
 	// check if there is truncated value information in the transaction
 	if i < len(exportedTx) {
 		// information for truncated value
+		if len(exportedTx) < i+sszSize {
+			return nil, ErrIllegalArguments
+		}
 		tLen := int(binary.BigEndian.Uint16(exportedTx[i:]))
 		i += sszSize
-		if len(exportedTx) < i+tLen {
+		if tLen == 0 || len(exportedTx) < i+tLen {
 			return nil, ErrIllegalArguments
 		}
 
